@@ -180,6 +180,8 @@ for mode,name in enumerate(["seq-out-of-range","bad-byte-in-field","empty-field"
 for n in (3,5):
     c04.append(job(f"bad-window-{n}","auparse","VH_HeaderBad",["C04/"],{"mode":5,"window":n},Q if n==3 else T,bounds=f"\"audit\" + every ASCII string of 0..{n} symbolic bytes + \"1.000:5): cwd=(x)\" and + \": a=b\": swapped, doubled, missing and misplaced header delimiters"))
 c04.append(job("bad-overwrite-2","auparse","VH_HeaderBad",["C04/"],{"mode":6},Q,bounds="a well-formed header \"audit(12.345:67): a=(b)\" with any two positions overwritten by symbolic ASCII bytes"))
+for tn,tname,ml in [(1,"typename",4),(2,"separator",5),(3,"unknown-number",5),(4,"type-and-separator",5)]:
+    c04.append(job(f"bad-line-{tname}","auparse","VH_LineTotal",["C04/"],{"maxlen":ml,"template":tn},Q,bounds=f"ParseLogLine on a full line whose {tname} part is every ASCII string of 0..{ml} symbolic bytes: error or message, no panic"))
 c04.append(job("bad-seq-11-digits","auparse","VH_HeaderBad",["C04/"],{"mode":0,"seqdigits":11},Q,bounds="sequence of 11 symbolic digits >= 2^32"))
 C["C04"]={"jobs":c04,"assumptions":PARSE_ASSUME+["expected numeric values are by construction (Horner over the same digit variables), not by parsing","time.Time.String is an uninterpreted injective rendering (the claim is about which instant reaches it)"],
    "outside":["bodies longer than 6 symbolic bytes","symbolic non-ASCII bytes in the body (concrete ones are in the hostile list)","stricter header grammars than first '(' '.' ':' ')' (the property does not define one)"]}
